@@ -512,6 +512,41 @@ class Gen:
             self.out.add("/*+E1*/\n" + "\n".join(gen) + "\n/*-*/")
 
     # ---- functions
+    LAZY_TO_EAGER = {"ok_or_else": "ok_or", "unwrap_or_else": "unwrap_or", "or_else": "or"}
+
+    def _thunk_to_eager(self, st, src, sp, cl, fid) -> bool:
+        """E22: `x.ok_or_else(|| E)` -> `x.ok_or(E)`, `x.unwrap_or_else(|_| E)` -> `x.unwrap_or(E)`, `x.or_else(|_| E)` -> `x.or(E)` when E is a
+        constant constructor expression (paths, struct / tuple-variant literals, literals, plain variables: no calls, no macros, no
+        method calls) that does not use the closure's parameters: evaluating E eagerly instead of lazily is unobservable."""
+        b = cl.bar
+        if cl.arrow is not None or cl.is_block: return False
+        if b < 3 or st[b - 1].text != "(" or st[b - 3].text != "." or st[b - 2].text not in self.LAZY_TO_EAGER: return False
+        if rs.match_close(st, b - 1) != cl.body_hi + 1: return False
+        pnames = set()
+        if st[b].text == "|":
+            for i in range(b + 1, cl.params_end):
+                t = st[i]
+                if t.kind == "ident" and t.text != "_": pnames.add(t.text)
+                elif t.text not in ("_", ","): return False
+        body = st[cl.body_lo:cl.body_hi + 1]
+        for j, t in enumerate(body):
+            nx = body[j + 1].text if j + 1 < len(body) else ""
+            if t.kind == "ident":
+                if t.text in pnames: return False
+                if nx == "!": return False
+                if nx == "(" and not t.text[:1].isupper(): return False
+                if t.text in ("if", "match", "loop", "while", "for", "return", "break", "continue", "unsafe", "move", "async", "await"): return False
+            elif t.kind == "punct":
+                if t.text not in ("::", "{", "}", "(", ")", ",", ":", "&", "-"): return False
+            elif t.kind not in ("lit", "num", "str", "int", "string", "char", "literal", "number"):
+                return False
+        a0, b0 = st[b].start, st[cl.body_hi].end
+        btxt = src[st[cl.body_lo].start:st[cl.body_hi].end]
+        sp.replace(st[b - 2].start, st[b - 2].end, REP("E22", st[b - 2].text, self.LAZY_TO_EAGER[st[b - 2].text]))
+        sp.replace(a0, b0, REP("E22", src[a0:b0], btxt))
+        self.rewrites.append({"fn": fid, "rule": "E22", "from": f".{st[b - 2].text}({src[a0:b0]})", "to": f".{self.LAZY_TO_EAGER[st[b - 2].text]}({btxt})"})
+        return True
+
     def emit_fn(self, d: Directive):
         S = Source.get(d.path)
         st, src = S.st, S.src
@@ -601,6 +636,13 @@ class Gen:
         # closures (E5/E6) and loops (E4)
         closures = rs.find_closures(st, fp.body_open + 1, fp.body_close)
         loops = rs.find_loops(st, fp.body_open + 1, fp.body_close)
+        # E21: `continue` of a `for` loop in guard shape -> else branch (Verus: "for-loops do not yet support continue")
+        csites, cbad = rs.find_for_continues(st, loops, fp.body_open + 1, fp.body_close)
+        for cs_ in csites:
+            sp.replace(st[cs_.kw].start, st[cs_.end].end, REP("E21", src[st[cs_.kw].start:st[cs_.end].end], ""))
+            sp.insert(st[cs_.if_close].end, ADD("E21", " else {"))
+            sp.insert(st[cs_.block_close].start, ADD("E21", "}"))
+            self.rewrites.append({"fn": fid, "rule": "E21", "from": "if C { ..; continue; } REST", "to": "if C { ..; } else { REST }"})
         nclos = d.opts.get("closures")
         if nclos is not None and int(nclos) != len(closures):
             # soft: the function's shape changed; contracts keyed by ordinal are attached as far as they go and the
@@ -663,8 +705,23 @@ class Gen:
                 info.setdefault("skipped_hints", []).append(f"closure {k} missing")
                 del clos_spec[k]
         inner_marks: List[Tuple[int, int, str]] = []   # (line offset start, end, label) filled later via sentinels
+        # closures that the baseline (specs/PARAMS.json) does not know: they have no contract, and a closure without a contract is
+        # opaque to the verifier (its result is unconstrained). Recorded so that the driver can tell "cannot see through a new
+        # closure" (undecided) from a violation.
+        fn_known = f"{self.unit}/{fid}" in PARAMS_BASE
+        if fn_known and len(actual_c) > len(base_c) and not base_c:
+            new_closures = set(range(1, len(actual_c) + 1))
+        elif fn_known and base_c and len(base_c) != len(actual_c):
+            new_closures = set(range(1, len(actual_c) + 1)) - set(closure_alias.keys())
+        else:
+            new_closures = set()
         for k, cl in enumerate(closures, 1):
-            # E6 tuple-pattern params
+            # E22: a thunk with a constant body handed to a lazy std combinator -> the eager combinator
+            if k not in clos_spec and k not in clos_types and self._thunk_to_eager(st, src, sp, cl, fid):
+                new_closures.discard(k)
+                continue
+            # E6 tuple-pattern params (generated names carry the ordinal the contracts were written against)
+            pk = f"__p{closure_alias[k]}" if k in closure_alias else (f"__q{k}" if closure_alias else f"__p{k}")
             params = st[cl.bar + 1:cl.params_end] if st[cl.bar].text == "|" else []
             lets = []
             if params:
@@ -685,13 +742,13 @@ class Gen:
                 for gi, g in enumerate(groups):
                     if len(g) >= 1 and st[g[0]].text == "_" and (len(g) == 1 or st[g[1]].text == ":"):
                         # E6: wildcard closure parameter -> unused named variable
-                        sp.replace(st[g[0]].start, st[g[0]].end, REP("E6", "_", f"__p{k}_{gi}"))
+                        sp.replace(st[g[0]].start, st[g[0]].end, REP("E6", "_", f"{pk}_{gi}"))
                         continue
                     if st[g[0]].text == "(":
                         # pattern possibly followed by ': Type'
                         e = rs.match_close(st, g[0])
                         pat = src[st[g[0]].start:st[e].end]
-                        nm = f"__p{k}_{gi}"
+                        nm = f"{pk}_{gi}"
                         sp.replace(st[g[0]].start, st[e].end, REP("E6", pat, nm))
                         lets.append(f"let {pat} = {nm};")
             # E20 for closures: the spec refers to identifier parameters of the k-th closure by position
@@ -763,6 +820,9 @@ class Gen:
                 else:
                     sp.insert(body_a, ADD("E6", "{ " + " ".join(lets)))
                     sp.insert(body_b, ADD("E6", " }"))
+        new_closures = sorted(k for k in new_closures if k not in clos_spec)
+        if new_closures:
+            info["new_closures"] = [S.line_of(st[closures[k - 1].bar].start) for k in new_closures]
         loop_spec = {int(c.args[0]): c for c in cls if c.kind == "loop"}
         for k, c in loop_spec.items():
             if k < 1 or k > len(loops):
@@ -1021,12 +1081,19 @@ class Gen:
                 self.rewrites.append({"fn": fid, "rule": rule, "from": anchor, "to": c.text.strip()})
             if c.kind == "insert_before":
                 anchor, nth = c.args[0], int(c.args[1])
-                atoks = [t.text for t in rs.sig(rs.tokenize(anchor))]
+                # "~text": the nth statement that CONTAINS text (the hint goes before that statement); without the tilde the
+                # statement must BEGIN with text
+                inside = anchor.startswith("~")
+                atoks = [t.text for t in rs.sig(rs.tokenize(anchor[1:] if inside else anchor))]
                 hits = []
                 i = fp.body_open + 1
                 while i < fp.body_close - len(atoks) + 1:
-                    if [t.text for t in st[i:i + len(atoks)]] == atoks and st[i - 1].text in (";", "{", "}"):
-                        hits.append(i)
+                    if [t.text for t in st[i:i + len(atoks)]] == atoks:
+                        if inside:
+                            b0 = rs.stmt_start(st, i, fp.body_open + 1)
+                            if b0 is not None and b0 not in hits: hits.append(b0)
+                        elif st[i - 1].text in (";", "{", "}"):
+                            hits.append(i)
                     i += 1
                 if nth < 1 or nth > len(hits):
                     # soft anchor: a proof hint whose statement is gone is skipped (a missing hint can only make a
